@@ -464,6 +464,10 @@ where
     // enable interrupts on DIO pins (sx127x has multiple),
     // and allow interrupts.
     async fn set_irq_params(&mut self, radio_mode: Option<RadioMode>) -> Result<(), RadioError> {
+        if let Some(RadioMode::Receive(RxMode::DutyCycle(_))) = radio_mode {
+            return Err(RadioError::DutyCycleUnsupported);
+        }
+
         // Interrupt flags stay latched until the host clears them by writing a 1
         // (SX1276 DS §4.1.2.4); mode changes do not reset them. Clear before the
         // DIO remap so a leftover flag can't sit on a freshly mapped DIO line,
